@@ -644,3 +644,187 @@ Proof.
 Qed.
 
 End Comp.
+
+(* ------------------------------------------------------------------ *)
+(** * The two kinds of views used by the solvers are consistent *)
+
+(* a compact framework (ids 0..n-1), as built by the readers and by the component extraction *)
+Theorem view_of_af_ok : forall F n, compact_af F n -> view_ok (view_of_af F) F.
+Proof.
+  intros F n [Hargs Hok]. unfold view_of_af. rewrite Hargs, seq_length.
+  constructor; cbn [g_maxid g_ids g_from g_to g_atts].
+  - split; [rewrite Hargs; apply seq_NoDup|]. intros a b Hab. rewrite Hargs.
+    destruct (Hok a b Hab) as [H1 H2]. split; apply in_seq; lia.
+  - intros a. rewrite Hargs. reflexivity.
+  - destruct n as [|k]; [reflexivity|]. intros a Ha. apply in_seq in Ha. lia.
+  - intros a b. apply in_attacked.
+  - intros a b. apply in_attackers.
+  - intros a b. reflexivity.
+Qed.
+
+(* the framework a store denotes *)
+Definition af_of {L} (f : fw L) : af := {| args := live_ids L f; atts := iter_attacks L f |}.
+
+Section StoreView.
+Variable L : Type.
+Variable leqb : L -> L -> bool.
+Hypothesis leqb_spec : forall x y, leqb x y = true <-> x = y.
+
+(* every store reachable from [new_with_labels ls] by any update history (C12's [reachable]) *)
+Theorem view_of_fw_ok : forall f : fw L,
+  (exists ls os, f = run_ops L leqb (fw_new_with_labels L leqb ls) os) ->
+  view_ok (view_of_fw f) (af_of f).
+Proof.
+  intros f Hr.
+  pose proof (observations L leqb leqb_spec f Hr) as [_ [_ [_ [Hfrom [Hto _]]]]].
+  pose proof (spec_wellformed L leqb leqb_spec f Hr) as Hwf. cbv zeta in Hwf.
+  destruct Hwf as [_ [Hsorted [Hlt [Hends _]]]].
+  unfold Store.abs in Hfrom, Hto, Hsorted, Hlt, Hends. cbn [live rel next_id] in *.
+  fold (live_ids L f) in Hsorted, Hlt, Hends.
+  unfold view_of_fw, af_of. constructor; cbn [g_maxid g_ids g_from g_to g_atts args atts].
+  - split; cbn [args atts].
+    + apply Sorted.StronglySorted_Sorted in Hsorted. revert Hsorted.
+      generalize (live_ids L f). intros l Hl.
+      induction l as [|x r IH]; [constructor|].
+      assert (Hss : StronglySorted lt (x :: r)).
+      { apply Sorted.Sorted_StronglySorted; [intros a b c; apply Nat.lt_trans | exact Hl]. }
+      inversion Hss as [|? ? Hr' Hall]; subst. constructor.
+      * intros Hin. rewrite Forall_forall in Hall. specialize (Hall x Hin). lia.
+      * apply IH. apply Sorted.StronglySorted_Sorted. exact Hr'.
+    + exact Hends.
+  - intros a. reflexivity.
+  - unfold max_argument_id, ls_max_id.
+    destruct (slots (ls f)) as [|o r] eqn:E.
+    + unfold live_ids, iter_args, ls_iter. rewrite E. reflexivity.
+    + intros a Ha. specialize (Hlt a Ha). cbn [length] in *. lia.
+  - intros a b. unfold att. cbn [atts]. rewrite in_map_iff. split.
+    + intros [[x y] [E Hin]]. cbn [snd] in E. subst y.
+      apply (Permutation_in _ (Hfrom a)) in Hin. apply filter_In in Hin.
+      destruct Hin as [Hin Hx]. cbn [fst] in Hx. apply Nat.eqb_eq in Hx. subst x. exact Hin.
+    + intros Hin. exists (a, b). split; [reflexivity|].
+      apply (Permutation_in _ (Permutation_sym (Hfrom a))). apply filter_In.
+      split; [exact Hin | cbn [fst]; apply Nat.eqb_refl].
+  - intros a b. unfold att. cbn [atts]. rewrite in_map_iff. split.
+    + intros [[x y] [E Hin]]. cbn [fst] in E. subst x.
+      apply (Permutation_in _ (Hto a)) in Hin. apply filter_In in Hin.
+      destruct Hin as [Hin Hy]. cbn [snd] in Hy. apply Nat.eqb_eq in Hy. subst y. exact Hin.
+    + intros Hin. exists (b, a). split; [reflexivity|].
+      apply (Permutation_in _ (Permutation_sym (Hto a))). apply filter_In.
+      split; [exact Hin | cbn [snd]; apply Nat.eqb_refl].
+  - intros a b. reflexivity.
+Qed.
+End StoreView.
+
+(* ------------------------------------------------------------------ *)
+(** * Main theorems *)
+
+(** (T1) For every view consistent with a well-formed framework, the component iterator
+    ([iter_connected_components]) never panics ([None]), the fuels of [update_next], [dfs_loop] and
+    [all_ccs_fuel] suffice, and the result is a valid decomposition: components are pairwise
+    disjoint duplicate-free lists covering exactly the arguments, no attack crosses two components,
+    and each extracted compact framework has attack (i,j) iff F has attack (ids[i], ids[j]). *)
+Theorem all_ccs_ok : forall g F, view_ok g F ->
+  exists ccs, all_ccs g = Some ccs /\ decomp_ok F ccs.
+Proof. exact all_ccs_ok_sec. Qed.
+
+(** (T2) On a fresh computer, [merged_connected_components_of al] never panics when the listed
+    ids are arguments ([al] may be empty, may contain duplicates or several arguments of one
+    component); the merged component contains every listed argument, and followed by the
+    components the iterator still returns afterwards it is again a valid decomposition. *)
+Theorem merged_cc_ok : forall g F al, view_ok g F ->
+  (forall a, In a al -> In a (args F)) ->
+  exists s' c, merged_cc_of g (cc_new g) al = Some (s', c) /\
+    (forall a, In a al -> In a (c_ids c)) /\
+    exists rest, remaining_ccs g s' = Some rest /\ decomp_ok F (c :: rest).
+Proof. intros g F al Hv. exact (merged_cc_ok_sec g F Hv al). Qed.
+
+(* instances *)
+Corollary all_ccs_compact_ok : forall F n, compact_af F n ->
+  exists ccs, all_ccs (view_of_af F) = Some ccs /\ decomp_ok F ccs.
+Proof. intros F n H. exact (all_ccs_ok _ _ (view_of_af_ok F n H)). Qed.
+
+Corollary merged_cc_compact_ok : forall F n al, compact_af F n ->
+  (forall a, In a al -> a < n) ->
+  exists s' c, merged_cc_of (view_of_af F) (cc_new (view_of_af F)) al = Some (s', c) /\
+    (forall a, In a al -> In a (c_ids c)) /\
+    exists rest, remaining_ccs (view_of_af F) s' = Some rest /\ decomp_ok F (c :: rest).
+Proof.
+  intros F n al H Hal. apply (merged_cc_ok _ _ al (view_of_af_ok F n H)).
+  intros a Ha. rewrite (proj1 H). apply in_seq. specialize (Hal a Ha). lia.
+Qed.
+
+Corollary all_ccs_store_ok : forall L (leqb : L -> L -> bool),
+  (forall x y, leqb x y = true <-> x = y) ->
+  forall f : fw L, (exists ls os, f = run_ops L leqb (fw_new_with_labels L leqb ls) os) ->
+  exists ccs, all_ccs (view_of_fw f) = Some ccs /\ decomp_ok (af_of f) ccs.
+Proof. intros L leqb Hl f Hr. exact (all_ccs_ok _ _ (view_of_fw_ok L leqb Hl f Hr)). Qed.
+
+Corollary merged_cc_store_ok : forall L (leqb : L -> L -> bool),
+  (forall x y, leqb x y = true <-> x = y) ->
+  forall (f : fw L) al, (exists ls os, f = run_ops L leqb (fw_new_with_labels L leqb ls) os) ->
+  (forall a, In a al -> In a (live_ids L f)) ->
+  exists s' c, merged_cc_of (view_of_fw f) (cc_new (view_of_fw f)) al = Some (s', c) /\
+    (forall a, In a al -> In a (c_ids c)) /\
+    exists rest, remaining_ccs (view_of_fw f) s' = Some rest /\ decomp_ok (af_of f) (c :: rest).
+Proof.
+  intros L leqb Hl f al Hr Hal.
+  exact (merged_cc_ok _ _ al (view_of_fw_ok L leqb Hl f Hr) Hal).
+Qed.
+
+(* ------------------------------------------------------------------ *)
+(** * The hypotheses are satisfiable; the statements on concrete inputs *)
+
+(* a hand-built view with sparse ids (2,5,7,9 live below max id 11), a self-attack, a duplicate
+   attack and an isolated argument *)
+Example cp_example_fw : af := {| args := [2; 5; 7; 9]; atts := [(9, 2); (5, 5); (2, 9); (9, 2)] |}.
+Example cp_example_view : gview :=
+  {| g_maxid := Some 11; g_ids := [2; 5; 7; 9];
+     g_from := attacked cp_example_fw; g_to := attackers cp_example_fw;
+     g_atts := atts cp_example_fw |}.
+
+Example cp_example_view_ok : view_ok cp_example_view cp_example_fw.
+Proof.
+  constructor; cbn [cp_example_view g_maxid g_ids g_from g_to g_atts].
+  - split.
+    + unfold cp_example_fw. cbn [args]. repeat constructor; cbn [In]; intros H;
+        repeat (destruct H as [H|H]; [discriminate|]); exact H.
+    + intros a b H. unfold cp_example_fw in *. cbn [args atts In] in *.
+      repeat (destruct H as [H|H]; [injection H as <- <-; tauto|]). destruct H.
+  - intros a. reflexivity.
+  - intros a H. cbn [In] in H. repeat (destruct H as [<-|H]; [lia|]). destruct H.
+  - intros a b. apply in_attacked.
+  - intros a b. apply in_attackers.
+  - intros a b. reflexivity.
+Qed.
+
+Example cp_example_all :
+  all_ccs cp_example_view =
+  Some [ {| c_ids := [2; 9]; c_af := {| args := [0; 1]; atts := [(1, 0); (0, 1); (1, 0)] |} |};
+         {| c_ids := [5]; c_af := {| args := [0]; atts := [(0, 0)] |} |};
+         {| c_ids := [7]; c_af := {| args := [0]; atts := [] |} |} ].
+Proof. reflexivity. Qed.
+
+Example cp_example_merged :
+  exists s',
+    merged_cc_of cp_example_view (cc_new cp_example_view) [7; 9; 7] =
+      Some (s', {| c_ids := [7; 9; 2];
+                   c_af := {| args := [0; 1; 2]; atts := [(1, 2); (2, 1); (1, 2)] |} |}) /\
+    remaining_ccs cp_example_view s' =
+      Some [ {| c_ids := [5]; c_af := {| args := [0]; atts := [(0, 0)] |} |} ].
+Proof. eexists. split; reflexivity. Qed.
+
+Example cp_example_compact : compact_af {| args := seq 0 3; atts := [(0, 1); (2, 2)] |} 3.
+Proof.
+  split; [reflexivity|]. intros a b H. cbn [In] in H.
+  repeat (destruct H as [H|H]; [injection H as <- <-; lia|]). destruct H.
+Qed.
+
+(* ------------------------------------------------------------------ *)
+Print Assumptions view_of_af_ok.
+Print Assumptions view_of_fw_ok.
+Print Assumptions all_ccs_ok.
+Print Assumptions merged_cc_ok.
+Print Assumptions all_ccs_compact_ok.
+Print Assumptions merged_cc_compact_ok.
+Print Assumptions all_ccs_store_ok.
+Print Assumptions merged_cc_store_ok.
